@@ -36,8 +36,7 @@ Lits == {QLit("Str", b, q) : b \in StrBodies, q \in L!Quotes}
         \cup {QLit("Num", t, "") : t \in NumTexts}
         \cup {QLit("true", <<>>, ""), QLit("false", <<>>, ""), QLit("null", <<>>, "")}
 Partners == {QLit("Str", <<"a">>, "'"), QLit("Num", <<"1">>, "")}
-            \cup (IF Big THEN {QLit("Str", <<"\\", "t">>, "\""), QLit("Str", <<"1">>, "\""), QLit("null", <<>>, ""),
-                               QLit("Str", <<"\\", "\\", "n">>, "'")} ELSE {})
+            \cup (IF Big THEN {QLit("Str", <<"\\", "t">>, "\""), QLit("Str", <<"1">>, "\"")} ELSE {})
 
 \* ---- subjects: descriptors [k, s, t, a] (s: bytes of a string, t: JSON spelling of a
 \* number or of true/false/null, a: elements)
